@@ -177,6 +177,8 @@ def execute(binpath, workdir, progs, specs, groups, deadline_ms=5000):
 
 def outcome(r, only_opts=False):
     """what the properties compare: did the Action run, and every bound value"""
+    if r.get("skipped"):
+        return ("skipped", "")
     if r.get("hang") or r.get("crash"):
         return ("dead", r.get("crash", "hang"))
     if r.get("specerr") or r.get("panic"):
